@@ -160,6 +160,9 @@ func run(pl Plan) (res vfx.Result) {
 		case "restart":
 			if !nd.Running && !nd.Left {
 				nd.EP.SetDown(false)
+				// the new process may come up with a different configuration (metadata) while peers still
+				// hold the old record, possibly at the very same incarnation
+				nd.Conf.Meta = []byte(fmt.Sprintf("meta-%d-life%d", e.Node, nd.Gen+1))
 				if err := c.Restart(nd); err != nil {
 					return fail("restart: %v", err)
 				}
